@@ -38,7 +38,16 @@ def main():
         env["PATH"] = "/opt/veriftools/go1.26.8/bin:" + env["PATH"]
         env.update(GOTOOLCHAIN="local", GOPROXY="off", GOSUMDB="off", VERIF_ROOT=here, VERIF_REPLAYS=os.path.join(tmp, "replays"))
         env.pop("GOFLAGS", None)
-        r = subprocess.run([os.path.join(here, "bin", "govc"), "check", "-overlay", ovf, "-no-evidence"] + extra + [prop, "quick"], env=env)
+        r = subprocess.run([os.path.join(here, "check"), "-overlay", ovf, "-no-evidence"] + extra + [prop, "quick"], env=env)
+        rd = os.path.join(tmp, "replays")
+        if os.path.isdir(rd):
+            for f in sorted(os.listdir(rd)):
+                if f.endswith(".json"):
+                    d = json.load(open(os.path.join(rd, f)))
+                    msg = d.get("replay_result") or d.get("replay_skipped") or "no replay attempted"
+                    print("  replay:", d.get("obligation", "")[:90], "->", msg)
+                    if os.environ.get("SHOW_REPLAY") and d.get("replay_test"):
+                        print(d["replay_test"]["source"]); print(d.get("replay_output", "")[-1500:])
         return r.returncode
     finally:
         shutil.rmtree(tmp, ignore_errors=True)
